@@ -148,7 +148,19 @@ def cargo_build(repo, release, bins):
 
 
 def build_coq():
-    """make -f Makefile.lay; no unfinished proofs / global assumptions in the two files."""
+    """make -f Makefile.lay; no unfinished proofs / global assumptions in the two files.
+    Serialised with a file lock: the three checkers may run at the same time."""
+    import fcntl
+    os.makedirs(os.path.join(BUILD, "layout"), exist_ok=True)
+    with open(os.path.join(BUILD, "layout", ".coq.lock"), "w") as lock:
+        fcntl.flock(lock, fcntl.LOCK_EX)
+        try:
+            _build_coq_locked()
+        finally:
+            fcntl.flock(lock, fcntl.LOCK_UN)
+
+
+def _build_coq_locked():
     mk = os.path.join(COQ_DIR, "Makefile.lay")
     proj = os.path.join(COQ_DIR, "_CoqProject.lay")
     if not os.path.exists(mk) or os.path.getmtime(mk) < os.path.getmtime(proj):
@@ -214,6 +226,8 @@ def finish(tag, ok, summary, args, t0, okline=None, failure=None):
     summary["wall_s"] = round(time.time() - t0, 2)
     if failure is not None:
         summary["first_failure"] = failure
+        if not summary.get("mismatches"):
+            summary["mismatches"] = [failure]
     if args.json:
         d = os.path.dirname(os.path.abspath(args.json))
         os.makedirs(d, exist_ok=True)
